@@ -41,6 +41,10 @@ CHECKS = {
    technique="exhaustive sweep of offset/width/window combinations on the real MMIO and PCI transports with intercepted accesses; deviation-bounded DFS over placements of device-side configuration updates between the individual register reads of each multi-field read (schedule enumeration on the real drivers); checked and release profiles",
    text="(a) every aligned offset up to window+8 and offsets near usize::MAX/2^63/2^32, 7 access types, windows 0..24 bytes and no window, on MMIO legacy/modern and PCI, reads and writes: success iff wholly inside, touching exactly those bytes once, otherwise the documented error and no access. (b) for block capacity, socket CID, console size, MAC address and 9P mount tag on MMIO-modern and PCI, every placement of up to 3 device-side configuration updates before any generation or field read: the value the driver reports must be the value of one single generation.",
    note="Trusts the register-level device models. Legacy MMIO has no generation counter; tearing there is outside the property's reach."),
+ "C08": dict(level="exploration", design="DESIGN.md §4 C08",
+   technique="complete enumeration of driver x transport x projected offered-feature sets on the real constructors, with an ordered device-side log (model transport calls, or register traces decoded by the register-level devices) and a co-simulated reference device observing the chains of a post-initialisation script",
+   text="All 11 drivers on the model transport and the real MMIO legacy/modern and PCI transports (also through SomeTransport), for every subset of the driver's supported feature bits plus three unsupported representatives, every single bit and all ones: the ordered log must show reset, ACKNOWLEDGE|DRIVER, feature read, accepted subset of offered & supported including VERSION_1 when offered, FEATURES_OK, every queue_set before DRIVER_OK, no notification before DRIVER_OK; afterwards indirect descriptors, used_event writes, block flush, console size/emergency write, GPU EDID and the 10/12-byte network header appear exactly when negotiated.",
+   note="2^64 offered sets are projected onto the <= 9 bits that can influence each driver (bitwise AND with a constant); the premise is checked on every case."),
 }
 
 NOT_YET = "check not built yet in this round (machinery under construction; see DESIGN.md)"
